@@ -489,9 +489,11 @@ func (w *c08W) open() {
 		ip.RootURI = protocol.DocumentURI("file://" + zzverif.Root())
 	}
 	_, _ = w.s.Initialize(ctx, ip)
-	_ = w.s.Initialized(ctx, &protocol.InitializedParams{})
+	zzNotify(w.s, func() { _ = w.s.Initialized(ctx, &protocol.InitializedParams{}) })
 	text := w.doc().text
-	_ = w.s.DidOpen(ctx, &protocol.DidOpenTextDocumentParams{TextDocument: protocol.TextDocumentItem{URI: w.uri(), Text: text}})
+	zzNotify(w.s, func() {
+		_ = w.s.DidOpen(ctx, &protocol.DidOpenTextDocumentParams{TextDocument: protocol.TextDocumentItem{URI: w.uri(), Text: text}})
+	})
 	if zzverif.Engine() {
 		c08RunTasks()
 	} else {
